@@ -14,8 +14,12 @@ from typing import Dict, List, Optional, Tuple
 from .cfg import CFG
 
 
-def _const_index(sub: ast.Subscript) -> Optional[int]:
-    s = sub.slice
+def _const_index(sub: ast.Subscript, _s=None):
+    """a constant element index: an integer, or a tuple of integers for an element of a small table (`bracket[0, 1]`)"""
+    s = sub.slice if _s is None else _s
+    if isinstance(s, ast.Tuple) and s.elts:
+        parts = [_const_index(sub, e) for e in s.elts]
+        return None if any(not isinstance(q, int) for q in parts) else tuple(parts)
     if isinstance(s, ast.Constant) and isinstance(s.value, int):
         return s.value
     if isinstance(s, ast.UnaryOp) and isinstance(s.op, ast.USub) and isinstance(s.operand, ast.Constant):
@@ -70,8 +74,8 @@ def _slot(e: ast.AST) -> Optional[str]:
 def _slot_index(s: Optional[str]) -> Optional[int]:
     if s and s.endswith("]") and "[" in s:
         try:
-            return int(s[s.index("[") + 1:-1])
-        except ValueError:
+            return ast.literal_eval(s[s.index("[") + 1:-1])
+        except (ValueError, SyntaxError):
             return None
     return None
 
